@@ -709,6 +709,8 @@ class Interp:
         raise Unsupported('unpack of %r' % (v,))
 
     def setattr(self, o, attr, v, frame=None, node=None):
+        if hasattr(o, 'pv_setattr'):
+            return o.pv_setattr(self, attr, v)
         if isinstance(o, Obj):
             if isinstance(o.cls, ClassRef):
                 st = o.cls.find(attr + '.setter')
